@@ -126,4 +126,46 @@ def extractBlocks (d : BDict) (id : Nat) : Option Str :=
   | some part, some st => extract part (id - st)
   | _, _ => none
 
+/-! ### Table scan of the blocks dictionary (`IteratorDictStringHRPDACBlocks`) -/
+
+/-- Iterator state: the local ID inside the current part and the part. -/
+structure BIter where
+  current : Nat
+  partIdx : Nat
+
+/-- `to_index()`: the number of strings before the next part (`strings_qty` for the last one). The C++ computes
+`starting_indexes.size() - 1` in `size_t`; it is only evaluated behind `partIdx < parts.size()`, so never for an
+empty vector. -/
+def toIndex (d : BDict) (p : Nat) : Nat :=
+  if p < d.starts.length - 1 then d.starts.getD (p + 1) 0 else d.n
+
+/-- `hasNext()`. The subtraction is unsigned in the C++; `to_index()` is never below the part's own start in a
+built dictionary (`toIndex_sub` of the lemmas), so no wrap-around is modelled. -/
+def bHasNext (d : BDict) (it : BIter) : Bool :=
+  decide (it.partIdx < d.parts.length) && decide (it.current ≤ toIndex d it.partIdx - d.starts.getD it.partIdx 0)
+
+/-- `next()`: `parts[partIdx]->extract(current++)`, then on to the next part when the current one is exhausted. -/
+def bNext (d : BDict) (it : BIter) : Option (Option Str × BIter) :=
+  match d.parts[it.partIdx]? with
+  | none => none
+  | some part =>
+    let r := extract part it.current
+    if it.current + 1 > toIndex d it.partIdx - d.starts.getD it.partIdx 0 then some (r, ⟨1, it.partIdx + 1⟩)
+    else some (r, ⟨it.current + 1, it.partIdx⟩)
+
+def bDrain (d : BDict) : Nat → BIter → Option (List (Option Str))
+  | 0, _ => some []
+  | fuel + 1, it =>
+    if bHasNext d it then
+      match bNext d it with
+      | none => none
+      | some (r, it') =>
+        match bDrain d fuel it' with
+        | some l => some (r :: l)
+        | none => none
+    else some []
+
+/-- `extractTable()` drained. -/
+def tableBlocks (d : BDict) : Option (List (Option Str)) := bDrain d (d.n + 1) ⟨1, 0⟩
+
 end CSD.Hash
